@@ -11,7 +11,7 @@ Cases == JsonDeserialize(IOEnv.CASES)
 \* the rung of the worker's ladder that ends a body of this kind (Termination!ExpectedRung) and its deadline in ticks
 \* ("sending": blocked in a pipe write; a dead initiator breaks the pipe at once, an initiator that merely closed its
 \*  sending side but stays alive leaves the writer blocked until the SIGINT rung)
-RungOf2(env, death) == CASE env \in {"idle", "receive", "thread", "cbdropped", "nondaemon", "atexit_hang"} -> "eof"
+RungOf2(env, death) == CASE env \in {"idle", "receive", "thread", "cbdropped", "cbraises", "cbraises_dropped", "nondaemon", "atexit_hang"} -> "eof"
                  [] env = "sending" -> (IF death = "close" THEN "sigint" ELSE "eof")
                  [] env \in {"busy", "sleep", "flooded", "sleep_and_sending", "sleep_and_short"} -> "sigint"
                  [] OTHER -> "hardexit"
@@ -20,7 +20,7 @@ Own(env, death) == CASE RungOf2(env, death) = "eof" -> 0 [] RungOf2(env, death) 
 \* from the sub) is ended by its own SIGINT rung: one more 5 s rung per level
 Deadline(c) == Own(c.env, c.death) + (IF c.topo \in {"via", "via-forwarder"} THEN 5000 ELSE 0)
 Slack(c) == 3000 + (IF c.topo \in {"via", "via-forwarder"} THEN 1500 ELSE 0) + (IF Own(c.env, c.death) > 0 THEN 1000 ELSE 0)
-Cooperative(env) == env \in {"idle", "receive", "sending", "cbdropped"}
+Cooperative(env) == env \in {"idle", "receive", "sending", "cbdropped", "cbraises", "cbraises_dropped"}
 
 OrphanVerdict(c) ==
   IF c.execmodel = "gevent" /\ ~Cooperative(c.env) /\ (c.gone_ms = -1 \/ c.gone_ms > Deadline(c) + Slack(c))
